@@ -5,7 +5,7 @@ func init() {
 }
 
 func rulesC08(c *Ctx, r *Report) {
-	r.explain("Decides: (PURE) Global, Local and everything they call never write through a, b or m; (ORD-L) decideOnStep labels the returned score with the step kind of the candidate it came from, in all 13 weak orderings; (SIB3) each traceback arm moves back by exactly the predecessor offset its candidate was computed from, in both Global/traceAlignmentSteps and Local/traceAlignmentStepsLocal; (SIB1) Global's and Local's candidate expressions and guarded cell stores are symbolically identical apart from Local's zero clamps; (SIB2) every substitution-matrix lookup has the argument order of its step kind (Get(a,Gap) deletion, Get(Gap,b) insertion) at the edges and in the middle — the asymmetric-matrix clause; (GO-SHAPE) gap-open is added exactly when the predecessor cell's step is of another kind, on the same predecessor the base score came from; (SIB-IDX) a and b are read at the cell's own row/column; (SIB5) Local's returned offsets are the fill's read indices of the first cell. Not decided: that the steps consume exactly a and b, score = re-score of the steps as an equality, absence of the internal panics. Added rules: (STOP) the traceback loops leave only at the origin (Global) or additionally at score == 0 of the current cell (Local); guards of cell stores are compared as boolean functions of the branch conditions (exact path conditions), not as nesting. (REV) before they are returned the collected steps are put in order: slices.Reverse, or a swap loop whose two positions add up to len-1 (as an invariant of its loop variables), whose test is equivalent to p < q as a linear inequality (`i < len/2` through the quotient law) and reads len-2 >= 0 on entry; or the steps are written from the end of a fixed buffer whose length is, term by term, at least bn + len(blocks)/bn - 2, the longest path through the table (a smaller buffer lets the index run below 0 on alignments with gaps on both sides). (T-START) Local's walk starts at a best cell of the whole table: the search is handed the table itself, its result is the start index unchanged, its loop visits every cell.")
+	r.explain("Decides: (PURE) Global, Local and everything they call never write through a, b or m; (ORD-L) decideOnStep labels the returned score with the step kind of the candidate it came from, in all 13 weak orderings; (SIB3) each traceback arm moves back by exactly the predecessor offset its candidate was computed from, in both Global/traceAlignmentSteps and Local/traceAlignmentStepsLocal; (SIB1) Global's and Local's candidate expressions and guarded cell stores are symbolically identical apart from Local's zero clamps; (SIB2) every substitution-matrix lookup has the argument order of its step kind (Get(a,Gap) deletion, Get(Gap,b) insertion) at the edges and in the middle — the asymmetric-matrix clause; (GO-SHAPE) gap-open is added exactly when the predecessor cell's step is of another kind, on the same predecessor the base score came from; (SIB-IDX) a and b are read at the cell's own row/column; (SIB5) Local's returned offsets are the fill's read indices of the first cell. Not decided: that the steps consume exactly a and b, score = re-score of the steps as an equality, absence of the internal panics. Added rules: (STOP) the traceback loops leave only at the origin (Global) or additionally at score == 0 of the current cell (Local); guards of cell stores are compared as boolean functions of the branch conditions (exact path conditions), not as nesting. (REV) before they are returned the collected steps are put in order: slices.Reverse, or a swap loop whose two positions add up to len-1 (as an invariant of its loop variables), whose test is equivalent to p < q as a linear inequality (`i < len/2` through the quotient law) and reads len-2 >= 0 on entry; or the steps are written from the end of a fixed buffer whose length is, term by term, at least bn + len(blocks)/bn - 2, the longest path through the table (a smaller buffer lets the index run below 0 on alignments with gaps on both sides). (T-START) Local's walk starts at a best cell of the whole table: the search is handed the table itself, its result is the start index unchanged, its loop visits every cell. (AS-TRACED) the steps and the score returned are the traceback's own results, handed on unchanged.")
 	r.assume("scores are finite (NaN is outside the orderings enumerated); loads are compared modulo program point (siblings share the same abstraction)")
 	rulesDecideOnStep(c, r, false, true)
 	rulesSiblingRecurrence(c, r, false)
